@@ -1,47 +1,1482 @@
-//! C13 probe (temporary)
+//! C13: the feature-file front end is total and lossless.
+//!
+//! Streams (all randomness from one `Rng`, seeded by --seed):
+//!  P  direct property checks on the real `fea_rs::parse::parse_root` (+ `compile::validate`):
+//!     corpus, mutated corpus, grammar-generated text, token soup; with and without a glyph map.
+//!  L  lexer cases: the real `Lexer` (hook) against the model `lex`.
+//!  D  primitive-driving cases: the real `Parser`/`AstSink` primitives (hook) driven with
+//!     generated call sequences against the model `run`.
+//!  I  include graphs: the real include resolution against the model `validate`/`generate`.
 use fea_rs::parse::{parse_root, SourceLoadError};
-use fea_rs::{GlyphMap};
-use std::collections::HashMap;
+use fea_rs::{GlyphMap, Node, NodeOrToken};
+use serde_json::json;
+use std::collections::{BTreeMap, HashMap};
 use std::path::{Path, PathBuf};
-use std::sync::Arc;
+use std::sync::atomic::{AtomicU64, Ordering};
+use std::sync::{Arc, Mutex};
+use vh::*;
 
-fn parse_files(files: &[(&str, &str)], root: &str, gm: Option<&GlyphMap>) {
-    let map: HashMap<String, Arc<str>> = files.iter().map(|(k, v)| (k.to_string(), Arc::from(*v))).collect();
-    let r = std::panic::catch_unwind(|| {
-        parse_root(
-            PathBuf::from(root),
-            gm,
-            Box::new(move |p: &Path| {
-                map.get(p.to_str().unwrap()).cloned().ok_or_else(|| SourceLoadError::new(p.to_path_buf(), "nope"))
-            }),
-        )
+// ---------------------------------------------------------------------------
+// panic capture and watchdog
+
+static LAST_PANIC: Mutex<Option<(String, String)>> = Mutex::new(None); // (location file, message)
+static CASE_START_MS: AtomicU64 = AtomicU64::new(0);
+static CURRENT_INPUT: Mutex<String> = Mutex::new(String::new());
+
+fn now_ms() -> u64 {
+    use std::time::{SystemTime, UNIX_EPOCH};
+    SystemTime::now().duration_since(UNIX_EPOCH).unwrap().as_millis() as u64
+}
+
+fn install_hooks() {
+    std::panic::set_hook(Box::new(|info| {
+        let loc = info.location().map(|l| l.file().to_string()).unwrap_or_default();
+        let msg = if let Some(s) = info.payload().downcast_ref::<&str>() {
+            s.to_string()
+        } else if let Some(s) = info.payload().downcast_ref::<String>() {
+            s.clone()
+        } else {
+            "?".to_string()
+        };
+        *LAST_PANIC.lock().unwrap() = Some((loc, msg));
+    }));
+    std::thread::spawn(|| loop {
+        std::thread::sleep(std::time::Duration::from_millis(500));
+        let st = CASE_START_MS.load(Ordering::SeqCst);
+        if st != 0 && now_ms().saturating_sub(st) > 20_000 {
+            let input = CURRENT_INPUT.lock().map(|s| s.clone()).unwrap_or_default();
+            emit_violation(
+                "front-end-hang",
+                "the feature-file front end did not return within 20 s".to_string(),
+                json!({"input": input}),
+            );
+            std::process::exit(0);
+        }
     });
-    match r {
-        Err(_) => println!("PANIC on {:?}", files),
-        Ok(Err(e)) => println!("load error {e}"),
-        Ok(Ok((tree, diags))) => {
-            let cat: String = tree.root().iter_tokens().map(|t| t.as_str()).collect();
-            println!("input {:?}\n  concat {:?} root_len {}", files, cat, tree.root().text_len());
+}
+
+fn guarded<T>(input_desc: impl FnOnce() -> String, f: impl FnOnce() -> T) -> Result<T, (String, String)> {
+    *CURRENT_INPUT.lock().unwrap() = input_desc();
+    CASE_START_MS.store(now_ms(), Ordering::SeqCst);
+    *LAST_PANIC.lock().unwrap() = None;
+    let r = std::panic::catch_unwind(std::panic::AssertUnwindSafe(f));
+    CASE_START_MS.store(0, Ordering::SeqCst);
+    r.map_err(|_| LAST_PANIC.lock().unwrap().take().unwrap_or_default())
+}
+
+fn slug(s: &str) -> String {
+    let mut out = String::new();
+    for w in s.split(|c: char| !c.is_ascii_alphabetic()).filter(|w| !w.is_empty()).take(5) {
+        if !out.is_empty() {
+            out.push('-');
+        }
+        out.push_str(&w.to_ascii_lowercase());
+    }
+    out
+}
+
+fn panic_key(prefix: &str, loc: &str, msg: &str) -> String {
+    let file = Path::new(loc).file_stem().map(|s| s.to_string_lossy().to_string()).unwrap_or_default();
+    if loc.ends_with("grammar/metrics.rs") && msg.contains("out of bounds") {
+        return format!("{prefix}-panic-glyphs-number-value-split");
+    }
+    format!("{prefix}-panic-{}-{}", file, slug(msg))
+}
+
+// ---------------------------------------------------------------------------
+// text generators
+
+const GLYPHS: &[&str] = &[
+    "a", "b", "c", "d", "e", "f", "i", "x", "y", "z", "a.alt", "f_i", "one", "two", "A", "B", "acute", "grave", "a-b",
+    "zero", "hyphen", "space", "o", "n", "u",
+];
+
+fn glyph_map() -> GlyphMap {
+    GlyphMap::new(GLYPHS.iter().copied()).unwrap()
+}
+
+fn pick_s<'a>(rng: &mut Rng, v: &[&'a str]) -> &'a str {
+    v[rng.below(v.len() as u64) as usize]
+}
+
+fn gname(rng: &mut Rng) -> String {
+    match rng.below(40) {
+        0 => "a-z".to_string(),   // a range when a glyph map is present
+        1 => "a--b".to_string(),  // doubled hyphen
+        2 => "a-b-c".to_string(), // ambiguous range
+        3 => "\\a".to_string(),
+        4 => "\\12".to_string(),
+        5 => "NULL".to_string(),
+        6 => "q".to_string(), // not in the map
+        _ => pick_s(rng, GLYPHS).to_string(),
+    }
+}
+
+fn gclass(rng: &mut Rng) -> String {
+    match rng.below(6) {
+        0 => "@CLS".to_string(),
+        1 => format!("[{} - {}]", gname(rng), gname(rng)),
+        2 => format!("[{}-{}]", pick_s(rng, &["a", "b", "one"]), pick_s(rng, &["c", "z", "two"])),
+        _ => {
+            let n = rng.range(1, 4);
+            let v: Vec<String> = (0..n).map(|_| gname(rng)).collect();
+            format!("[{}]", v.join(" "))
+        }
+    }
+}
+
+fn gitem(rng: &mut Rng) -> String {
+    if rng.chance(1, 4) { gclass(rng) } else { gname(rng) }
+}
+
+fn num(rng: &mut Rng) -> String {
+    match rng.below(14) {
+        0 => "0".into(),
+        1 => "-0".into(),
+        2 => "00".into(),
+        3 => "0x1F".into(),
+        4 => "0x".into(),
+        5 => "1.5".into(),
+        6 => "-2.".into(),
+        7 => "10n".into(),
+        8 => "32768".into(),
+        9 => "-99999999999999999999".into(),
+        _ => rng.range(-300, 300).to_string(),
+    }
+}
+
+fn metric(rng: &mut Rng) -> String {
+    match rng.below(16) {
+        0 => "$pad".into(),
+        1 => format!("${{pad {} {}}}", pick_s(rng, &["+", "-", "*", "/"]), num(rng)),
+        2 => format!("${{pad-{}}}", pick_s(rng, &["2", "x", "1.5", "12.5", "1.", "a-b", "/2", "é"])),
+        3 => format!("${{{}-{}}}", rng.range(1, 30), rng.range(1, 30)),
+        4 => "(wght=100:10 wght=900:20)".into(),
+        5 => format!("(wght={}:{} wdth=5u:{})", num(rng), num(rng), num(rng)),
+        _ => num(rng),
+    }
+}
+
+fn value_record(rng: &mut Rng) -> String {
+    match rng.below(6) {
+        0 => format!("<{} {} {} {}>", metric(rng), metric(rng), metric(rng), metric(rng)),
+        1 => "<VR1>".into(),
+        2 => "<NULL>".into(),
+        _ => metric(rng),
+    }
+}
+
+fn anchor(rng: &mut Rng) -> String {
+    match rng.below(6) {
+        0 => "<anchor NULL>".into(),
+        1 => "<anchor ANCHOR1>".into(),
+        2 => format!("<anchor {} {} contourpoint {}>", metric(rng), metric(rng), rng.range(0, 9)),
+        _ => format!("<anchor {} {}>", metric(rng), metric(rng)),
+    }
+}
+
+fn seq(rng: &mut Rng, lo: i64, hi: i64) -> String {
+    let n = rng.range(lo, hi);
+    (0..n).map(|_| gitem(rng)).collect::<Vec<_>>().join(" ")
+}
+
+fn marked(rng: &mut Rng, with_lookups: bool, with_values: bool) -> String {
+    let n = rng.range(1, 3);
+    (0..n)
+        .map(|_| {
+            let mut s = format!("{}'", gitem(rng));
+            if with_lookups && rng.chance(1, 3) {
+                for _ in 0..rng.range(1, 2) {
+                    s.push_str(&format!(" lookup L{}", rng.range(1, 2)));
+                }
+            } else if with_values && rng.chance(1, 3) {
+                s.push(' ');
+                s.push_str(&value_record(rng));
+            }
+            s
+        })
+        .collect::<Vec<_>>()
+        .join(" ")
+}
+
+fn statement(rng: &mut Rng) -> String {
+    match rng.below(44) {
+        0 => format!("sub {} by {};", gitem(rng), gitem(rng)),
+        1 => format!("sub {} by {};", seq(rng, 2, 3), gname(rng)),
+        2 => format!("sub {} from {};", gname(rng), gclass(rng)),
+        3 => format!("sub {} by {};", gname(rng), seq(rng, 2, 3)),
+        4 => format!("sub {} by NULL;", gitem(rng)),
+        5 | 6 | 7 => format!("sub {} {} {} by {};", seq(rng, 0, 2), marked(rng, false, false), seq(rng, 0, 2), seq(rng, 1, 2)),
+        8 | 9 => format!("sub {} {} {};", seq(rng, 0, 2), marked(rng, true, false), seq(rng, 0, 2)),
+        10 => format!("ignore sub {} {} {}, {} {};", seq(rng, 0, 2), marked(rng, false, false), seq(rng, 0, 1), seq(rng, 1, 2), marked(rng, false, false)),
+        11 => format!("ignore sub {};", seq(rng, 1, 3)),
+        12 => format!("rsub {} {}' {} by {};", seq(rng, 0, 2), gitem(rng), seq(rng, 0, 2), gitem(rng)),
+        13 => format!("sub {}' from {};", gname(rng), gclass(rng)),
+        14 => format!("pos {} {};", gitem(rng), value_record(rng)),
+        15 => format!("pos {} {} {};", gitem(rng), gitem(rng), value_record(rng)),
+        16 => format!("enum pos {} {} {};", gitem(rng), gitem(rng), value_record(rng)),
+        17 => format!("pos {} {} {} {};", gitem(rng), value_record(rng), gitem(rng), value_record(rng)),
+        18 | 19 | 20 => format!("pos {} {} {};", seq(rng, 0, 2), marked(rng, true, true), seq(rng, 0, 2)),
+        21 => format!("pos {} {}' {} {};", seq(rng, 0, 1), gitem(rng), seq(rng, 1, 2), value_record(rng)),
+        22 => format!("ignore pos {} {} {};", seq(rng, 0, 2), marked(rng, false, false), seq(rng, 0, 2)),
+        23 => format!("pos base {} {} mark @TOP;", gitem(rng), anchor(rng)),
+        24 => format!("pos cursive {} {} {};", gitem(rng), anchor(rng), anchor(rng)),
+        25 => format!("pos mark {} {} mark @TOP {} mark @TOP;", gitem(rng), anchor(rng), anchor(rng)),
+        26 => format!("pos ligature {} {} mark @TOP ligComponent {} ;", gname(rng), anchor(rng), anchor(rng)),
+        27 => format!("lookupflag {};", pick_s(rng, &["0", "IgnoreMarks", "RightToLeft IgnoreLigatures", "MarkAttachmentType @CLS", "UseMarkFilteringSet [acute]", "7"])),
+        28 => format!("script {};", pick_s(rng, &["latn", "DFLT", "cyrl", "toolong", "é"])),
+        29 => format!("language {} {};", pick_s(rng, &["DEU", "dflt", "TRK "]), pick_s(rng, &["", "exclude_dflt", "include_dflt", "required"])),
+        30 => "subtable;".into(),
+        31 => format!("lookup L{};", rng.range(1, 3)),
+        32 => format!("@C{} = {};", rng.range(1, 3), gclass(rng)),
+        33 => format!("markClass {} {} @TOP;", gitem(rng), anchor(rng)),
+        34 => format!("parameters {} {} {} {};", num(rng), num(rng), num(rng), num(rng)),
+        35 => format!("sizemenuname {};", pick_s(rng, &["\"Win\"", "3 \"Win\"", "1 0 0 \"Mac\"", "\"unterminated"])),
+        36 => "featureNames { name \"Feature\"; name 3 1 0x409 \"F\"; };".into(),
+        37 => "cvParameters { FeatUILabelNameID { name \"x\"; }; Character 0x61; };".into(),
+        38 => format!("lookup IN{} {{ {} }} IN{};", rng.range(1, 2), statement(rng), rng.range(1, 2)),
+        39 => format!("include({});", pick_s(rng, &["inc1.fea", "inc2.fea", "missing.fea", " inc1.fea ", "", "  "])),
+        40 => format!("feature {};", pick_s(rng, &["liga", "kern"])),
+        41 => format!("sub {} {}' {} by {};", gitem(rng), gitem(rng), gitem(rng), pick_s(rng, &["NULL", "a b", "[a b]"])),
+        42 => format!("pos {}' {} {}' {};", gitem(rng), value_record(rng), gitem(rng), value_record(rng)),
+        _ => format!("# comment {}\n", gname(rng)),
+    }
+}
+
+fn top_level(rng: &mut Rng) -> String {
+    match rng.below(24) {
+        0 => format!("languagesystem {} {};", pick_s(rng, &["DFLT", "latn", "cyrl"]), pick_s(rng, &["dflt", "DEU ", "TRK"])),
+        1 => format!("@CLS = {};", gclass(rng)),
+        2 => format!("markClass {} {} @TOP;", gitem(rng), anchor(rng)),
+        3 => {
+            let n = rng.range(1, 4);
+            let body: Vec<String> = (0..n).map(|_| statement(rng)).collect();
+            let name = format!("L{}", rng.range(1, 3));
+            format!("lookup {name} {}{{\n  {}\n}} {name};", if rng.chance(1, 5) { "useExtension " } else { "" }, body.join("\n  "))
+        }
+        4..=11 => {
+            let n = rng.range(1, 6);
+            let body: Vec<String> = (0..n).map(|_| statement(rng)).collect();
+            let tag = pick_s(rng, &["liga", "kern", "ss01", "cv01", "size", "aalt", "mark", "calt"]);
+            format!("feature {tag} {{\n  {}\n}} {tag};", body.join("\n  "))
+        }
+        12 => "table GDEF {\n  GlyphClassDef [a b], [f_i], [acute grave], ;\n  Attach a 1 2;\n  LigatureCaretByPos f_i 300;\n} GDEF;".into(),
+        13 => format!("table head {{ FontRevision {}; }} head;", num(rng)),
+        14 => format!("table hhea {{ Ascender {}; Descender {}; LineGap {}; CaretOffset 1; }} hhea;", num(rng), num(rng), num(rng)),
+        15 => "table OS/2 { TypoAscender 800; Panose 1 2 3 4 5 6 7 8 9 0; Vendor \"ABCD\"; UnicodeRange 0 1 2; winAscent 900; XHeight 500; } OS/2;".into(),
+        16 => "table name { nameid 1 \"Family\"; nameid 9 3 1 0x409 \"X\"; } name;".into(),
+        17 => "table BASE { HorizAxis.BaseTagList ideo romn; HorizAxis.BaseScriptList latn romn -120 0, cyrl romn -120 0; } BASE;".into(),
+        18 => "table STAT { ElidedFallbackName { name \"Regular\"; }; DesignAxis wght 0 { name \"Weight\"; }; AxisValue { location wght 400; name \"Regular\"; flag ElidableAxisValueName; }; } STAT;".into(),
+        19 => format!("anchorDef {} {} ANCHOR1;", num(rng), num(rng)),
+        20 => format!("valueRecordDef {} VR1;", value_record(rng)),
+        21 => format!("anon {0} {{ {1} }} {0};", pick_s(rng, &["foo", "bar"]), pick_s(rng, &["junk ; } foo", "a b c", "} bar ;", ""])),
+        22 => format!("include({}){}", pick_s(rng, &["inc1.fea", "inc2.fea", "missing.fea", " inc1.fea "]), if rng.chance(3, 4) { ";" } else { "" }),
+        _ => "conditionset heavy { wght 600 900; } heavy;\nvariation rvrn heavy { sub a by a.alt; } rvrn;".into(),
+    }
+}
+
+fn gen_fea(rng: &mut Rng) -> String {
+    let n = rng.range(1, 6);
+    let mut s = String::new();
+    for _ in 0..n {
+        s.push_str(&top_level(rng));
+        s.push_str(pick_s(rng, &["\n", "\n", "\n\n", " ", "", " # c\n", "\r\n"]));
+    }
+    s
+}
+
+const SOUP: &[&str] = &[
+    "feature", "lookup", "sub", "pos", "by", "from", "ignore", "rsub", "enum", "table", "include", "include(", "(", ")",
+    "{", "}", "[", "]", "<", ">", ";", ";", ";", ",", "'", "-", "=", "@CLS", "@", "\\", "\\a", "\\1", "a", "b", "a-b",
+    "a--b", "f_i", "liga", "kern", "0", "0x", "0x1f", "012", "-5", "1.5", "5n", "\"s\"", "\"open", "#c\n", "\n", " ", "  ",
+    "\t", "$", "${", "$pad", "*", "+", "/", ":", "anchor", "mark", "NULL", "markClass", "anon", "languagesystem", "script",
+    "language", "é", "中", "𝐀", "aé", "\0", "lookupflag", "useExtension", "contourpoint", "device", "name", "nameid",
+    "anchorDef", "valueRecordDef", "conditionset", "variation", "base", "ligature", "ligComponent", "cursive", "GDEF",
+    "head", "OS/2", "wght=1:2", "DFLT", "dflt",
+];
+
+fn gen_soup(rng: &mut Rng) -> String {
+    let n = rng.range(1, 40);
+    let mut s = String::new();
+    for _ in 0..n {
+        s.push_str(pick_s(rng, SOUP));
+        if rng.chance(2, 3) {
+            s.push(' ');
+        }
+    }
+    s
+}
+
+/// character-level mutation that keeps the text valid UTF-8
+fn mutate(rng: &mut Rng, text: &str, max_mut: i64) -> String {
+    let mut chars: Vec<char> = text.chars().collect();
+    let n = rng.range(1, max_mut);
+    for _ in 0..n {
+        let len = chars.len();
+        let at = if len == 0 { 0 } else { rng.below(len as u64 + 1) as usize };
+        match rng.below(10) {
+            0 | 1 => {
+                if at < len {
+                    chars.remove(at);
+                }
+            }
+            2 | 3 | 4 => {
+                let ins = pick_s(rng, SOUP);
+                for (k, c) in ins.chars().enumerate() {
+                    chars.insert((at + k).min(chars.len()), c);
+                }
+            }
+            5 => {
+                if at < len {
+                    chars[at] = *rng.pick(&[';', '{', '}', '\'', '-', '"', '#', '\\', '(', ')', '0', 'é', '\0', ' ', '\n', '<', '>', '[', ']', '@', '$']);
+                }
+            }
+            6 => chars.truncate(at),
+            7 => {
+                // duplicate a span
+                if len > 0 {
+                    let a = rng.below(len as u64) as usize;
+                    let b = (a + rng.range(1, 12) as usize).min(len);
+                    let span: Vec<char> = chars[a..b].to_vec();
+                    for (k, c) in span.into_iter().enumerate() {
+                        chars.insert((at + k).min(chars.len()), c);
+                    }
+                }
+            }
+            8 => {
+                // delete a span
+                if len > 0 {
+                    let a = rng.below(len as u64) as usize;
+                    let b = (a + rng.range(1, 12) as usize).min(len);
+                    chars.drain(a..b);
+                }
+            }
+            _ => {
+                // swap two characters
+                if len > 1 {
+                    let a = rng.below(len as u64) as usize;
+                    let b = rng.below(len as u64) as usize;
+                    chars.swap(a, b);
+                }
+            }
+        }
+    }
+    chars.into_iter().collect()
+}
+
+fn window(rng: &mut Rng, text: &str, max: usize) -> String {
+    if text.len() <= max {
+        return text.to_string();
+    }
+    let mut a = rng.below((text.len() - max) as u64) as usize;
+    while !text.is_char_boundary(a) {
+        a += 1;
+    }
+    let mut b = (a + max).min(text.len());
+    while !text.is_char_boundary(b) {
+        b -= 1;
+    }
+    text[a..b].to_string()
+}
+
+fn load_corpus() -> Vec<(String, String)> {
+    fn walk(dir: &Path, out: &mut Vec<(String, String)>) {
+        let mut entries: Vec<_> = match std::fs::read_dir(dir) {
+            Ok(r) => r.filter_map(|e| e.ok()).map(|e| e.path()).collect(),
+            Err(_) => return,
+        };
+        entries.sort();
+        for p in entries {
+            if p.is_dir() {
+                walk(&p, out);
+            } else if p.extension().map(|e| e == "fea").unwrap_or(false) {
+                if let Ok(s) = std::fs::read_to_string(&p) {
+                    out.push((p.to_string_lossy().to_string(), s));
+                }
+            }
+        }
+    }
+    let mut out = Vec::new();
+    walk(Path::new("/repo/fea-rs/test-data"), &mut out);
+    out
+}
+
+// ---------------------------------------------------------------------------
+// stream P: direct property checks on the real parser
+
+struct Parsed {
+    concat: String,
+    n_diag: usize,
+    has_errors: bool,
+    diag_problems: Vec<(String, String)>, // (key, description)
+    pos_problem: Option<String>,
+    include_msgs: Vec<(String, usize, String)>, // (file, start, message) of include errors
+    validate_panic: Option<(String, String)>,
+    tree_files: Vec<String>,
+}
+
+fn run_parse(files: &BTreeMap<String, String>, root: &str, gm: Option<&GlyphMap>, do_validate: bool) -> Result<Parsed, (String, String)> {
+    let map: HashMap<String, Arc<str>> = files.iter().map(|(k, v)| (k.clone(), Arc::from(v.as_str()))).collect();
+    let desc_files = files.clone();
+    let root_s = root.to_string();
+    guarded(
+        move || json!({"files": desc_files, "root": root_s}).to_string(),
+        || {
+            let map2 = map.clone();
+            let (tree, diags) = parse_root(
+                PathBuf::from(root),
+                gm,
+                Box::new(move |p: &Path| {
+                    map2.get(p.to_str().unwrap_or("")).cloned().ok_or_else(|| SourceLoadError::new(p.to_path_buf(), "no such file"))
+                }),
+            )
+            .expect("root source exists");
+            let concat: String = tree.root().iter_tokens().map(|t| t.as_str()).collect();
+            let mut diag_problems = Vec::new();
+            let mut include_msgs = Vec::new();
             for d in diags.diagnostics() {
-                println!("  diag {:?} {:?} {}", d.level, d.span(), d.text());
+                let src = tree.get_source(d.message.file);
+                let (name, text) = match src {
+                    Some(s) => (s.path().to_string_lossy().to_string(), s.text().to_string()),
+                    None => {
+                        diag_problems.push(("diag-unknown-file".to_string(), format!("diagnostic {:?} names a file that is not in the source list", d.text())));
+                        continue;
+                    }
+                };
+                let r = d.span();
+                if d.text().contains("cyclical include") || d.text().contains("maximum include depth") {
+                    include_msgs.push((name.clone(), r.start, d.text().to_string()));
+                }
+                if r.start > r.end {
+                    diag_problems.push(("diag-range-reversed".into(), format!("diagnostic {:?} has range {:?}", d.text(), r)));
+                } else if r.end > text.len() {
+                    let key = if r.start == text.len() && r.end == text.len() + 1 { "diag-range-past-end-of-source" } else { "diag-range-outside-source" };
+                    diag_problems.push((key.into(), format!("diagnostic {:?} in {:?} has range {:?} but the source has {} bytes", d.text(), name, r, text.len())));
+                } else if !text.is_char_boundary(r.start) || !text.is_char_boundary(r.end) {
+                    diag_problems.push(("diag-range-splits-character".into(), format!("diagnostic {:?} in {:?} has range {:?} which is not on character boundaries", d.text(), name, r)));
+                }
+            }
+            // positions: token ranges tile [0, root.text_len)
+            let mut pos_problem = None;
+            let mut at = 0usize;
+            for t in tree.root().iter_tokens() {
+                let r = t.range();
+                if r.start != at || r.end != at + t.as_str().len() {
+                    pos_problem = Some(format!("token {:?} has range {:?}, expected start {}", t.as_str(), r, at));
+                    break;
+                }
+                at = r.end;
+            }
+            if pos_problem.is_none() && at != tree.root().text_len() {
+                pos_problem = Some(format!("tokens end at {} but the root node has length {}", at, tree.root().text_len()));
+            }
+            let has_errors = diags.has_errors();
+            let mut validate_panic = None;
+            if do_validate && !has_errors {
+                let g = gm.cloned().unwrap_or_else(glyph_map);
+                *LAST_PANIC.lock().unwrap() = None;
+                let r = std::panic::catch_unwind(std::panic::AssertUnwindSafe(|| {
+                    let v = fea_rs::compile::validate(&tree, &g, None::<&fea_rs::compile::NopVariationInfo>);
+                    v.len()
+                }));
+                if r.is_err() {
+                    validate_panic = Some(LAST_PANIC.lock().unwrap().take().unwrap_or_default());
+                }
+            }
+            let mut tree_files = Vec::new();
+            let _ = &mut tree_files;
+            Parsed { concat, n_diag: diags.len(), has_errors, diag_problems, pos_problem, include_msgs, validate_panic, tree_files }
+        },
+    )
+}
+
+struct PStats {
+    parses: usize,
+    error_free: usize,
+    validated: usize,
+    with_diags: usize,
+    by_kind: BTreeMap<String, usize>,
+}
+
+fn check_text(kind: &str, text: &str, rng: &mut Rng, st: &mut PStats) {
+    let mut files = BTreeMap::new();
+    files.insert("root.fea".to_string(), text.to_string());
+    files.insert("inc1.fea".to_string(), "sub a by b;\n".to_string());
+    files.insert("inc2.fea".to_string(), "@INC = [a b];\n".to_string());
+    let has_include = text.contains("include");
+    let gm = glyph_map();
+    let with_map = rng.chance(1, 2);
+    for pass in 0..2 {
+        let use_map = (pass == 0) == with_map;
+        let gmo = if use_map { Some(&gm) } else { None };
+        *st.by_kind.entry(format!("{kind}{}", if use_map { "+glyphmap" } else { "" })).or_default() += 1;
+        st.parses += 1;
+        match run_parse(&files, "root.fea", gmo, true) {
+            Err((loc, msg)) => {
+                emit_violation(
+                    &panic_key("parse", &loc, &msg),
+                    format!("parsing panicked at {loc}: {msg}; input {:?}", trunc(text, 200)),
+                    json!({"input": text, "glyph_map": use_map, "kind": kind}),
+                );
+            }
+            Ok(p) => {
+                if p.n_diag > 0 {
+                    st.with_diags += 1;
+                }
+                if !p.has_errors {
+                    st.error_free += 1;
+                    st.validated += 1;
+                }
+                // lossless (when nothing was spliced in)
+                let spliced = has_include && p.concat != text && (p.concat.contains("sub a by b;\n") || p.concat.contains("@INC = [a b];\n"));
+                if !spliced && p.concat != text {
+                    let key = if text.contains('\0') {
+                        "lossless-nul-byte-ends-parse"
+                    } else if use_map && text.contains("--") {
+                        "lossless-glyph-range-split-drops-hyphens"
+                    } else {
+                        "lossless-tree-text-differs"
+                    };
+                    let at = p.concat.bytes().zip(text.bytes()).take_while(|(a, b)| a == b).count();
+                    emit_violation(
+                        key,
+                        format!("token texts concatenate to {} bytes but the input has {} bytes (first difference at byte {}); input {:?}", p.concat.len(), text.len(), at, trunc(text, 200)),
+                        json!({"input": text, "glyph_map": use_map, "kind": kind, "tree_text": p.concat}),
+                    );
+                }
+                for (key, desc) in &p.diag_problems {
+                    emit_violation(key, format!("{desc}; input {:?}", trunc(text, 200)), json!({"input": text, "glyph_map": use_map, "kind": kind}));
+                }
+                if let Some(pp) = &p.pos_problem {
+                    emit_violation("positions-inconsistent", format!("{pp}; input {:?}", trunc(text, 200)), json!({"input": text, "glyph_map": use_map, "kind": kind}));
+                }
+                if let Some((loc, msg)) = &p.validate_panic {
+                    emit_violation(
+                        &panic_key("validate", loc, msg),
+                        format!("validation of an error-free parse tree panicked at {loc}: {msg}; input {:?}", trunc(text, 200)),
+                        json!({"input": text, "glyph_map": use_map, "kind": kind}),
+                    );
+                }
+                let _ = &p.tree_files;
+                let _ = &p.include_msgs;
             }
         }
     }
 }
 
+fn trunc(s: &str, n: usize) -> String {
+    if s.len() <= n {
+        return s.to_string();
+    }
+    let mut e = n;
+    while !s.is_char_boundary(e) {
+        e -= 1;
+    }
+    format!("{}…", &s[..e])
+}
+
+// ---------------------------------------------------------------------------
+// Gallina printers
+
+fn coq_bytes(b: &[u8]) -> String {
+    format!("[{}]%N", b.iter().map(|x| x.to_string()).collect::<Vec<_>>().join(";"))
+}
+fn coq_tree(t: &NodeOrToken) -> String {
+    match t {
+        NodeOrToken::Token(t) => format!("Tok {}%N {}", t.kind as u16, coq_bytes(t.as_str().as_bytes())),
+        NodeOrToken::Node(n) => coq_node(n),
+    }
+}
+fn coq_node(n: &Node) -> String {
+    let ch: Vec<String> = n.iter_children().map(coq_tree).collect();
+    format!("Nd {}%N {} {} [{}]", n.kind() as u16, n.text_len(), coq_bool(n.error), ch.join("; "))
+}
+
+// ---------------------------------------------------------------------------
+// stream L: lexer cases
+
+fn lexer_case(id: &mut usize, kind: &str, text: &str) {
+    let t = text.to_string();
+    let r = guarded(|| json!({"lex": t}).to_string(), || Node::verif_lex(text));
+    match r {
+        Err((loc, msg)) => emit_violation(&panic_key("lexer", &loc, &msg), format!("the lexer panicked at {loc}: {msg}"), json!({"input": text})),
+        Ok(lx) => {
+            // property predicate on the implementation: lengths tile the input, every lexeme
+            // is non-empty, boundaries are character boundaries
+            let mut pos = 0usize;
+            let mut bad = None;
+            for (k, l) in &lx {
+                if *l == 0 {
+                    bad = Some(format!("empty lexeme of kind {k} at {pos}"));
+                    break;
+                }
+                pos += l;
+                if pos > text.len() || !text.is_char_boundary(pos) {
+                    bad = Some(format!("lexeme of kind {k} ends at {pos}, not a character boundary inside the input"));
+                    break;
+                }
+            }
+            if bad.is_none() && pos != text.len() {
+                bad = Some(format!("lexemes cover {pos} of {} bytes", text.len()));
+            }
+            if let Some(b) = bad {
+                emit_violation("lexer-lexemes-do-not-tile-input", format!("{b}; input {:?}", trunc(text, 200)), json!({"input": text}));
+            }
+            let impl_l = format!("[{}]", lx.iter().map(|(k, l)| format!("({}%N,{})", k, l)).collect::<Vec<_>>().join(";"));
+            let coq = format!("lex_matches {} {}", coq_bytes(text.as_bytes()), impl_l);
+            let show = format!("lex {}", coq_bytes(text.as_bytes()));
+            emit_case(*id, kind, coq, Some(show), lx.len() > 1, format!("L:{text}"), json!({"input": text, "impl_lexemes": lx}));
+            *id += 1;
+        }
+    }
+}
+
+// ---------------------------------------------------------------------------
+// stream D: drive the primitives
+
+type Op = (u8, usize, usize, Vec<(usize, usize, u16)>);
+
+const K_WS: u16 = 10;
+const K_COMMENT: u16 = 11;
+const K_BACKSLASH: u16 = 15;
+const K_HYPHEN: u16 = 16;
+const K_GLYPHNAME: u16 = 126;
+const K_GLYPHNAMEORRANGE: u16 = 127;
+const K_GSUB_REWRITE: u16 = 131;
+const K_GPOS_REWRITE: u16 = 142;
+const NODE_KINDS: &[u16] = &[120, 123, 128, 129, 130, 133, 140, 144, 150, 165, 166, 170, 131, 142];
+
+fn is_trivia_k(k: u16) -> bool {
+    k == K_WS || k == K_COMMENT || k == K_BACKSLASH
+}
+
+struct OpGen<'a> {
+    text: &'a str,
+    toks: Vec<(u16, usize, usize)>, // non-trivia lexemes: (kind, start, len)
+    consumed: usize,
+    ops: Vec<Op>,
+    open: usize,
+}
+
+impl<'a> OpGen<'a> {
+    fn new(text: &'a str) -> Self {
+        let lx = Node::verif_lex(text);
+        let mut toks = Vec::new();
+        let mut pos = 0;
+        for (k, l) in lx {
+            if !is_trivia_k(k) {
+                toks.push((k, pos, l));
+            }
+            pos += l;
+        }
+        OpGen { text, toks, consumed: 0, ops: Vec::new(), open: 0 }
+    }
+    fn cur(&self) -> (u16, usize, usize) {
+        self.toks.get(self.consumed).copied().unwrap_or((0, self.text.len(), 0))
+    }
+    fn eat(&mut self, rng: &mut Rng) {
+        let (k, start, len) = self.cur();
+        let txt = &self.text[start.min(self.text.len())..(start + len).min(self.text.len())];
+        match rng.below(12) {
+            0 | 1 => {
+                // remap; idents with hyphens become GlyphNameOrRange as in eat_and_validate_glyph_name
+                let kind = if k == 1 && txt.contains('-') { K_GLYPHNAMEORRANGE } else if k == 1 { K_GLYPHNAME } else { *rng.pick(&[1u16, 126, 127, 44, 121]) };
+                self.ops.push((5, kind as usize, 1, vec![]));
+                self.consumed += 1;
+            }
+            2 if len >= 2 && rng.chance(1, 2) => {
+                // split the current token
+                let mut cuts: Vec<usize> = vec![0, len];
+                for _ in 0..rng.range(1, 2) {
+                    cuts.push(rng.below(len as u64 + 1) as usize);
+                }
+                cuts.sort();
+                cuts.dedup();
+                let mut parts: Vec<(usize, usize, u16)> = cuts.windows(2).map(|w| (w[0], w[1], *rng.pick(&[1u16, K_HYPHEN, 4, K_WS, 119, 232]))).collect();
+                match rng.below(12) {
+                    0 => {
+                        parts.pop();
+                    }
+                    1 => {
+                        if let Some(p) = parts.first_mut() {
+                            p.0 += 1;
+                        }
+                    }
+                    2 => parts.clear(),
+                    _ => {}
+                }
+                let n_parts = parts.len();
+                self.ops.push((6, 0, 0, parts));
+                if n_parts > 0 {
+                    self.consumed += 1;
+                }
+            }
+            3 if rng.chance(1, 6) => {
+                let n = rng.range(2, 3) as usize;
+                self.ops.push((5, *rng.pick(&[1u16, 126, 4]) as usize, n, vec![]));
+                self.consumed += n;
+            }
+            _ => {
+                self.ops.push((4, 0, 0, vec![]));
+                self.consumed += 1;
+            }
+        }
+    }
+    fn noise(&mut self, rng: &mut Rng) {
+        match rng.below(9) {
+            0 => self.ops.push((7, 0, 0, vec![])),
+            1 => self.ops.push((8, 0, 0, vec![])),
+            2 => self.ops.push((9, 0, 0, vec![])),
+            3 => self.ops.push((10, 0, 0, vec![])),
+            4 => {
+                let a = rng.below(self.text.len() as u64 + 2) as usize;
+                let b = a + rng.below(5) as usize;
+                self.ops.push((11, a, b, vec![]));
+            }
+            _ => self.ops.push((3, 0, 0, vec![])),
+        }
+    }
+    fn block(&mut self, rng: &mut Rng, depth: usize, budget: &mut i64) {
+        if rng.chance(4, 5) {
+            self.ops.push((3, 0, 0, vec![]));
+        }
+        let kind = *rng.pick(NODE_KINDS);
+        self.ops.push((0, kind as usize, 0, vec![]));
+        self.open += 1;
+        let n = rng.range(0, 7);
+        for _ in 0..n {
+            if *budget <= 0 {
+                break;
+            }
+            *budget -= 1;
+            match rng.below(10) {
+                0 if depth < 4 => self.block(rng, depth + 1, budget),
+                1 => self.noise(rng),
+                _ => self.eat(rng),
+            }
+        }
+        if rng.chance(1, 40) {
+            return; // leave the node open
+        }
+        if rng.chance(1, 3) {
+            self.ops.push((2, *rng.pick(NODE_KINDS) as usize, 0, vec![]));
+        } else {
+            self.ops.push((1, 0, 0, vec![]));
+        }
+        self.open -= 1;
+    }
+}
+
+/// text + ops for a contextual rule that the real reparse functions will rewrite
+fn gen_rewrite_case(rng: &mut Rng) -> (String, Vec<Op>) {
+    let gpos = rng.chance(1, 2);
+    let mut words: Vec<(String, u16)> = Vec::new(); // (text, ast kind to bump with; 0 = eat_raw)
+    let g = |rng: &mut Rng, words: &mut Vec<(String, u16)>| {
+        words.push((pick_s(rng, &["a", "b", "c", "f_i", "@CLS", "\\a"]).to_string(), K_GLYPHNAME));
+    };
+    if rng.chance(1, 5) {
+        words.push(("ignore".into(), 0));
+    }
+    words.push(((if gpos { "pos" } else if rng.chance(1, 5) { "rsub" } else { "sub" }).into(), 0));
+    for _ in 0..rng.range(0, 2) {
+        g(rng, &mut words);
+    }
+    for _ in 0..rng.range(0, 3) {
+        g(rng, &mut words);
+        words.push(("'".into(), 0));
+        if rng.chance(1, 3) {
+            words.push(("lookup".into(), 0));
+            words.push(("L1".into(), 0));
+        }
+    }
+    for _ in 0..rng.range(0, 2) {
+        g(rng, &mut words);
+    }
+    if !gpos && rng.chance(1, 2) {
+        words.push(((if rng.chance(1, 8) { "from" } else { "by" }).into(), 0));
+        if rng.chance(1, 6) {
+            words.push(("NULL".into(), 0));
+        } else {
+            for _ in 0..rng.range(1, 2) {
+                g(rng, &mut words);
+            }
+        }
+    }
+    if rng.chance(1, 8) {
+        words.push((",".into(), 0));
+        g(rng, &mut words);
+        words.push(("'".into(), 0));
+    }
+    if rng.chance(9, 10) {
+        words.push((";".into(), 0));
+    }
+    if rng.chance(1, 10) {
+        g(rng, &mut words);
+    }
+    let mut text = String::new();
+    let mut ops: Vec<Op> = Vec::new();
+    if rng.chance(1, 2) {
+        text.push_str("# lead\n ");
+    }
+    ops.push((3, 0, 0, vec![]));
+    ops.push((0, 129, 0, vec![]));
+    for (i, (w, k)) in words.iter().enumerate() {
+        if i > 0 && !(w == "'" || w == ";" || w == ",") || (i > 0 && rng.chance(1, 6)) {
+            text.push_str(pick_s(rng, &[" ", " ", "  ", "\n", " #x\n"]));
+        }
+        let w2 = if w == "\\a" { "\\a" } else { w.as_str() };
+        text.push_str(w2);
+        if *k != 0 && !w.starts_with('@') {
+            ops.push((5, *k as usize, 1, vec![]));
+        } else {
+            ops.push((4, 0, 0, vec![]));
+        }
+    }
+    text.push_str(pick_s(rng, &["", " ", "\n", " sub"]));
+    if rng.chance(1, 12) {
+        ops.push((7, 0, 0, vec![])); // an error in the node: no rewrite
+    }
+    ops.push((2, (if gpos { K_GPOS_REWRITE } else { K_GSUB_REWRITE }) as usize, 0, vec![]));
+    (text, ops)
+}
+
+#[derive(Clone, Debug)]
+enum Rw {
+    Bump,
+    Start(u16),
+    Finish,
+    Diag(bool),
+}
+
+/// Reconstruct the ReparseCtx calls from the rewritten node: items of the moved children appear
+/// unchanged and in order; every other node was opened and closed by the reparse function.
+fn derive_script(before: &[NodeOrToken], after: &Node, diags: &[(usize, usize, bool)], text_pos0: usize) -> Option<Vec<Rw>> {
+    fn walk(n: &Node, before: &[NodeOrToken], ptr: &mut usize, out: &mut Vec<Rw>) -> bool {
+        for c in n.iter_children() {
+            if *ptr < before.len() && *c == before[*ptr] {
+                out.push(Rw::Bump);
+                *ptr += 1;
+            } else if let NodeOrToken::Node(inner) = c {
+                out.push(Rw::Start(inner.kind() as u16));
+                if !walk(inner, before, ptr, out) {
+                    return false;
+                }
+                out.push(Rw::Finish);
+            } else {
+                return false;
+            }
+        }
+        true
+    }
+    let mut script = Vec::new();
+    let mut ptr = 0;
+    if !walk(after, before, &mut ptr, &mut script) || ptr != before.len() {
+        return None;
+    }
+    if diags.is_empty() {
+        return Some(script);
+    }
+    // place the diagnostics: at the first point (in order) where the position and the length of
+    // the next non-trivia item fit
+    let first_nontrivia_len = |from: usize| -> usize { before[from..].iter().find(|t| !is_trivia_k(t.kind() as u16)).map(|t| t.text_len()).unwrap_or(0) };
+    let mut out = Vec::new();
+    let mut di = 0;
+    let mut pos = text_pos0;
+    let mut p = 0usize;
+    let fits = |di: usize, pos: usize, p: usize| -> bool { di < diags.len() && diags[di].0 == pos && diags[di].1 - diags[di].0 == first_nontrivia_len(p) && (p >= before.len() || !is_trivia_k(before[p].kind() as u16) || first_nontrivia_len(p) == 0) };
+    for op in script {
+        while fits(di, pos, p) {
+            out.push(Rw::Diag(diags[di].2));
+            di += 1;
+        }
+        if let Rw::Bump = op {
+            pos += before[p].text_len();
+            p += 1;
+        }
+        out.push(op);
+    }
+    while fits(di, pos, p) {
+        out.push(Rw::Diag(diags[di].2));
+        di += 1;
+    }
+    if di != diags.len() {
+        return None;
+    }
+    Some(out)
+}
+
+fn coq_script(s: &[Rw]) -> String {
+    let v: Vec<String> = s
+        .iter()
+        .map(|o| match o {
+            Rw::Bump => "RBump".to_string(),
+            Rw::Start(k) => format!("RStart {}%N", k),
+            Rw::Finish => "RFinish".to_string(),
+            Rw::Diag(h) => format!("RDiag {}", coq_bool(*h)),
+        })
+        .collect();
+    format!("[{}]", v.join("; "))
+}
+
+fn drive_case(id: &mut usize, kind: &str, text: &str, ops: &[Op], use_map: bool, stats: &mut BTreeMap<String, usize>) {
+    let gm = glyph_map();
+    let mut out = Node::verif_out();
+    let desc = json!({"drive": text, "ops": ops.iter().map(|o| json!([o.0, o.1, o.2, o.3])).collect::<Vec<_>>()}).to_string();
+    let r = guarded(|| desc.clone(), || Node::verif_drive(text, if use_map { Some(&gm) } else { None }, ops, &mut out));
+    let panicked = r.is_err();
+    // scripts for the finishes that rewrote
+    let mut scripts: HashMap<usize, (String, u16)> = HashMap::new();
+    let mut strict = true;
+    for (i, before, cur_err, pk, last, diags, text_pos) in &out.finishes {
+        let (code, a, _, _) = &ops[*i];
+        let cur_kind = if *code == 2 { Some(*a as u16) } else { *pk };
+        let rewrote = !*cur_err && matches!(cur_kind, Some(K_GSUB_REWRITE) | Some(K_GPOS_REWRITE));
+        if !rewrote {
+            continue;
+        }
+        let after = match last {
+            Some(NodeOrToken::Node(n)) => n,
+            _ => {
+                *stats.entry("skipped_underivable".into()).or_default() += 1;
+                return;
+            }
+        };
+        let off: usize = before.iter().map(|t| t.text_len()).sum();
+        match derive_script(before, after, diags, text_pos.saturating_sub(off)) {
+            Some(s) => {
+                if !diags.is_empty() {
+                    strict = false;
+                }
+                scripts.insert(*i, (coq_script(&s), after.kind() as u16));
+            }
+            None => {
+                *stats.entry("skipped_underivable".into()).or_default() += 1;
+                return;
+            }
+        }
+    }
+    if panicked {
+        // a panic inside a rewriting finish cannot be replayed (its script is unknown)
+        let (code, a, _, _) = &ops[out.cur_op.min(ops.len() - 1)];
+        if (*code == 1 || *code == 2) && (*code == 1 || *a as u16 == K_GSUB_REWRITE || *a as u16 == K_GPOS_REWRITE) {
+            let (loc, msg) = r.err().unwrap();
+            if loc.contains("token_tree") && msg.contains("rewrite finished with unhandled items") || loc.contains("rewrite.rs") {
+                *stats.entry("skipped_panic_in_rewrite".into()).or_default() += 1;
+                return;
+            }
+        }
+    }
+    let coq_ops: Vec<String> = ops
+        .iter()
+        .enumerate()
+        .map(|(i, (code, a, b, parts))| match code {
+            0 => format!("OStart {}%N", a),
+            1 | 2 => {
+                let remap = if *code == 2 { format!("(Some {}%N)", a) } else { "None".to_string() };
+                match scripts.get(&i) {
+                    Some((s, k)) => format!("OFinish {} {} {}%N", remap, s, k),
+                    None => format!("OFinish {} [] 0%N", remap),
+                }
+            }
+            3 => "OEatTrivia".into(),
+            4 => "OEatRaw".into(),
+            5 => format!("OBump {} {}%N", b, a),
+            6 => format!("OSplit [{}]", parts.iter().map(|(x, y, k)| format!("({},{},{}%N)", x, y, k)).collect::<Vec<_>>().join(";")),
+            7 => "OErr true".into(),
+            8 => "OErr false".into(),
+            9 => "OErrBeforeWs true".into(),
+            10 => "OErrBeforeWs false".into(),
+            _ => format!("ORawErr {} {}", a, b),
+        })
+        .collect();
+    let expected = if panicked {
+        *stats.entry("drive_panics".into()).or_default() += 1;
+        format!("(inr {})", out.cur_op)
+    } else {
+        let children: Vec<String> = out.children.iter().map(coq_tree).collect();
+        format!(
+            "(inl (mkObs {} [{}] [{}] [{}] {} {} [{}] {}))",
+            out.text_pos,
+            children.join("; "),
+            out.parents.iter().map(|(k, i)| format!("({}%N,{})", k, i)).collect::<Vec<_>>().join(";"),
+            out.errors.iter().map(|(a, b, h)| format!("({},{},{})", a, b, coq_bool(*h))).collect::<Vec<_>>().join(";"),
+            coq_bool(out.cur_err),
+            out.include_count,
+            out.buf.iter().map(|(s, tl, nt, k, l)| format!("({},{},{},{}%N,{})", s, tl, nt, k, l)).collect::<Vec<_>>().join(";"),
+            coq_bool(strict)
+        )
+    };
+    let gm_term = if use_map {
+        format!("(gm_of [{}])", GLYPHS.iter().map(|g| coq_bytes(g.as_bytes())).collect::<Vec<_>>().join(";"))
+    } else {
+        "None".to_string()
+    };
+    let mut coq = format!("drive_matches {} {} [{}] {}", gm_term, coq_bytes(text.as_bytes()), coq_ops.join("; "), expected);
+    // positions of the finished tree
+    if let Some(root) = &out.root {
+        let mut toks = Vec::new();
+        let mut nodes = vec![root.range()];
+        fn collect(n: &Node, toks: &mut Vec<std::ops::Range<usize>>, nodes: &mut Vec<std::ops::Range<usize>>) {
+            for c in n.iter_children() {
+                match c {
+                    NodeOrToken::Token(t) => toks.push(t.range()),
+                    NodeOrToken::Node(m) => {
+                        nodes.push(m.range());
+                        collect(m, toks, nodes);
+                    }
+                }
+            }
+        }
+        collect(root, &mut toks, &mut nodes);
+        // property predicate on the implementation: ranges tile and carry the token text
+        let mut at = 0;
+        let flat: String = root.iter_tokens().map(|t| t.as_str()).collect();
+        for t in root.iter_tokens() {
+            let r = t.range();
+            if r.start != at || flat.get(r.clone()) != Some(t.as_str()) {
+                emit_violation("positions-inconsistent", format!("token {:?} has range {:?}, expected start {at}", t.as_str(), r), json!({"input": text, "ops": desc}));
+                break;
+            }
+            at = r.end;
+        }
+        let fmt = |v: &Vec<std::ops::Range<usize>>| v.iter().map(|r| format!("({},{})", r.start, r.end)).collect::<Vec<_>>().join(";");
+        coq = format!("({}) && positions_match ({}) [{}] [{}]", coq, coq_node(root), fmt(&toks), fmt(&nodes));
+        *stats.entry("drive_with_finished_root".into()).or_default() += 1;
+    }
+    if !strict {
+        *stats.entry("drive_rewrite_with_diagnostics".into()).or_default() += 1;
+    }
+    if !scripts.is_empty() {
+        *stats.entry("drive_rewrites".into()).or_default() += scripts.len();
+    }
+    emit_case(*id, kind, coq, None, ops.len() > 2, format!("D:{use_map}:{text}:{:?}", ops), json!({"input": text, "glyph_map": use_map, "n_ops": ops.len(), "impl_panicked": panicked, "impl_text_pos": out.text_pos}));
+    *id += 1;
+}
+
+// ---------------------------------------------------------------------------
+// stream I: include graphs
+
+struct IncGraph {
+    n: usize,
+    edges: Vec<Vec<usize>>, // file i includes edges[i] (file indexes; usize::MAX = missing file)
+}
+
+fn gen_graph(rng: &mut Rng) -> (IncGraph, &'static str) {
+    match rng.below(12) {
+        0 => {
+            // self include
+            (IncGraph { n: 1, edges: vec![vec![0]] }, "self")
+        }
+        1 => {
+            // cycle of length k, entered after a tail
+            let tail = rng.range(0, 3) as usize;
+            let k = rng.range(2, 6) as usize;
+            let n = tail + k;
+            let mut e = vec![vec![]; n];
+            for i in 0..n - 1 {
+                e[i].push(i + 1);
+            }
+            e[n - 1].push(tail);
+            (IncGraph { n, edges: e }, "cycle")
+        }
+        2 | 3 => {
+            // chain around the depth limit
+            let n = rng.range(44, 56) as usize;
+            let mut e = vec![vec![]; n];
+            for i in 0..n - 1 {
+                e[i].push(i + 1);
+            }
+            (IncGraph { n, edges: e }, "chain")
+        }
+        4 => {
+            // long cycle (deeper than the limit)
+            let n = rng.range(50, 60) as usize;
+            let mut e = vec![vec![]; n];
+            for i in 0..n - 1 {
+                e[i].push(i + 1);
+            }
+            e[n - 1].push(0);
+            (IncGraph { n, edges: e }, "longcycle")
+        }
+        5 | 6 => {
+            // DAG: edges only forward, duplicates and diamonds
+            let n = rng.range(2, 9) as usize;
+            let mut e = vec![vec![]; n];
+            for i in 0..n - 1 {
+                let k = rng.range(0, 3);
+                for _ in 0..k {
+                    e[i].push(rng.range(i as i64 + 1, n as i64 - 1) as usize);
+                }
+            }
+            (IncGraph { n, edges: e }, "dag")
+        }
+        7 => {
+            // DAG with a missing file
+            let n = rng.range(2, 6) as usize;
+            let mut e = vec![vec![]; n];
+            for i in 0..n - 1 {
+                e[i].push(i + 1);
+                if rng.chance(1, 2) {
+                    e[i].push(usize::MAX);
+                }
+            }
+            (IncGraph { n, edges: e }, "missing")
+        }
+        8 => {
+            // short first, long second path to the same file, then a chain below it
+            let a = rng.range(20, 30) as usize;
+            let b = rng.range(20, 30) as usize;
+            let n = 1 + a + b;
+            let mut e = vec![vec![]; n];
+            // root -> shared (index 1+a) directly, and through a chain of a files
+            let shared = 1 + a;
+            e[0].push(if rng.chance(1, 2) { shared } else { 1 });
+            let second = if e[0][0] == shared { 1 } else { shared };
+            e[0].push(second);
+            for i in 1..a {
+                e[i].push(i + 1);
+            }
+            e[a].push(shared);
+            for i in shared..n - 1 {
+                e[i].push(i + 1);
+            }
+            (IncGraph { n, edges: e }, "twopaths")
+        }
+        _ => {
+            // arbitrary small digraph
+            let n = rng.range(1, 7) as usize;
+            let mut e = vec![vec![]; n];
+            for i in 0..n {
+                let k = rng.range(0, 3);
+                for _ in 0..k {
+                    e[i].push(rng.below(n as u64) as usize);
+                }
+            }
+            (IncGraph { n, edges: e }, "random")
+        }
+    }
+}
+
+fn include_case(id: &mut usize, g: &IncGraph, kind: &str, stats: &mut BTreeMap<String, usize>) {
+    let mut files = BTreeMap::new();
+    for i in 0..g.n {
+        let mut s = format!("#{}\n", i);
+        for &c in &g.edges[i] {
+            if c == usize::MAX {
+                s.push_str("include(nofile);\n");
+            } else {
+                s.push_str(&format!("include(f{});\n", c));
+            }
+        }
+        files.insert(format!("f{}", i), s);
+    }
+    // reachable subgraph from the root: does it have a cycle / how deep is it
+    let mut color = vec![0u8; g.n];
+    let mut cyclic = false;
+    fn dfs(g: &IncGraph, v: usize, color: &mut Vec<u8>, cyclic: &mut bool) {
+        color[v] = 1;
+        for &c in &g.edges[v] {
+            if c == usize::MAX {
+                continue;
+            }
+            if color[c] == 1 {
+                *cyclic = true;
+            } else if color[c] == 0 {
+                dfs(g, c, color, cyclic);
+            }
+        }
+        color[v] = 2;
+    }
+    dfs(g, 0, &mut color, &mut cyclic);
+    // longest path (only when acyclic)
+    let mut depth = vec![0usize; g.n];
+    if !cyclic {
+        fn longest(g: &IncGraph, v: usize, memo: &mut Vec<usize>) -> usize {
+            if memo[v] != 0 {
+                return memo[v];
+            }
+            let mut d = 1;
+            for &c in &g.edges[v] {
+                if c != usize::MAX {
+                    d = d.max(1 + longest(g, c, memo));
+                }
+            }
+            memo[v] = d;
+            d
+        }
+        longest(g, 0, &mut depth);
+    }
+    let max_depth = depth[0]; // number of files on the longest include chain
+    let r = run_parse(&files, "f0", None, false);
+    *stats.entry(format!("include_{kind}")).or_default() += 1;
+    match r {
+        Err((loc, msg)) => {
+            emit_violation(&panic_key("include", &loc, &msg), format!("include resolution panicked at {loc}: {msg}"), json!({"files": files}));
+        }
+        Ok(p) => {
+            let cyc_reported = p.include_msgs.iter().any(|m| m.2.contains("cyclical"));
+            let deep_reported = p.include_msgs.iter().any(|m| m.2.contains("depth"));
+            if cyclic && !(cyc_reported || deep_reported) {
+                emit_violation("include-cycle-not-reported", "a cyclic include graph produced no include error".to_string(), json!({"files": files}));
+            }
+            if !cyclic && max_depth > 50 && !deep_reported {
+                emit_violation("include-depth-not-reported", format!("an include chain of {max_depth} files produced no depth error"), json!({"files": files}));
+            }
+            if !cyclic && max_depth <= 40 && (cyc_reported || deep_reported) {
+                emit_violation("include-spurious-error", format!("an acyclic include graph of depth {max_depth} produced an include error"), json!({"files": files, "msgs": p.include_msgs.iter().map(|m| m.2.clone()).collect::<Vec<_>>()}));
+            }
+            for (key, desc) in &p.diag_problems {
+                emit_violation(key, desc.clone(), json!({"files": files}));
+            }
+            if let Some(pp) = &p.pos_problem {
+                emit_violation("positions-inconsistent", pp.clone(), json!({"files": files}));
+            }
+            // lossless across includes when nothing is cut: full textual expansion
+            if !cyclic && !deep_reported && !cyc_reported {
+                fn expand(g: &IncGraph, v: usize, out: &mut String) {
+                    out.push_str(&format!("#{}\n", v));
+                    for &c in &g.edges[v] {
+                        if c == usize::MAX {
+                            out.push_str("include(nofile);\n");
+                        } else {
+                            expand(g, c, out);
+                            out.push('\n');
+                        }
+                    }
+                }
+                let mut want = String::new();
+                expand(g, 0, &mut want);
+                if want != p.concat {
+                    emit_violation("include-expansion-differs", "the resolved tree is not the textual expansion of the includes".to_string(), json!({"files": files, "tree_text": p.concat, "expected": want}));
+                }
+            }
+            // model correspondence: include errors (file, statement index, kind) in order, and the
+            // order in which files are spliced (the `#k` markers of the resolved text)
+            let mut errs = Vec::new();
+            for (file, start, msg) in &p.include_msgs {
+                let fi: usize = file[1..].parse().unwrap_or(0);
+                // statement index among the *resolved* includes of that file
+                let text = &files[file];
+                let mut idx = 0usize;
+                let mut pos = 0usize;
+                let mut found = None;
+                for line in text.split_inclusive('\n') {
+                    if line.starts_with("include(f") {
+                        if pos == *start {
+                            found = Some(idx);
+                        }
+                        idx += 1;
+                    }
+                    pos += line.len();
+                }
+                errs.push((fi, found.unwrap_or(999), msg.contains("cyclical")));
+            }
+            let order: Vec<usize> = p.concat.lines().filter_map(|l| l.strip_prefix('#').and_then(|x| x.parse().ok())).collect();
+            // the graph as IncludeGraph holds it: resolved includes only, parsed files only
+            let mut reach = vec![false; g.n];
+            let mut stack = vec![0usize];
+            while let Some(v) = stack.pop() {
+                if reach[v] {
+                    continue;
+                }
+                reach[v] = true;
+                for &c in &g.edges[v] {
+                    if c != usize::MAX {
+                        stack.push(c);
+                    }
+                }
+            }
+            let gterm: Vec<String> = (0..g.n)
+                .filter(|i| reach[*i] && g.edges[*i].iter().any(|c| *c != usize::MAX))
+                .map(|i| format!("({}%N, [{}]%N)", i, g.edges[i].iter().filter(|c| **c != usize::MAX).map(|c| c.to_string()).collect::<Vec<_>>().join(";")))
+                .collect();
+            let coq = format!(
+                "include_matches [{}] 0%N [{}] [{}]%N",
+                gterm.join("; "),
+                errs.iter().map(|(f, i, c)| format!("({}%N,{},{})", f, i, coq_bool(*c))).collect::<Vec<_>>().join(";"),
+                order.iter().map(|o| o.to_string()).collect::<Vec<_>>().join(";")
+            );
+            emit_case(*id, &format!("include-{kind}"), coq, None, g.n > 1, format!("I:{:?}", g.edges), json!({"edges": g.edges.iter().map(|e| e.iter().map(|c| if *c == usize::MAX { -1 } else { *c as i64 }).collect::<Vec<_>>()).collect::<Vec<_>>(), "impl_errors": errs, "impl_order_len": order.len(), "cyclic": cyclic, "depth": max_depth}));
+            *id += 1;
+        }
+    }
+}
+
+// ---------------------------------------------------------------------------
+
 fn main() {
-    parse_files(&[("r", "languagesystem DFLT dflt;\0feature liga { sub a by b; } liga;")], "r", None);
-    parse_files(&[("r", "feature liga { sub a by b }")], "r", None);
-    parse_files(&[("r", "include(a)")], "r", None);
-    parse_files(&[("r", "lookup foo é")], "r", None);
-    parse_files(&[("r", "feature liga { sub a by b é")], "r", None);
-    let gm = GlyphMap::new(["a", "b", "a-b", "c"]).unwrap();
-    parse_files(&[("r", "feature liga { sub a--b by c; sub [a--b] by c; } liga;")], "r", Some(&gm));
-    parse_files(&[("r", "feature liga { sub [a---c] by c;\n sub x by c; } liga;")], "r", Some(&gm));
-    parse_files(&[("r", "feature kern { pos a ${x-12.5}; } kern;")], "r", None);
-    parse_files(&[("r", "feature kern { pos a ${x-1.}; } kern;")], "r", None);
-    parse_files(&[("r", "feature kern { pos a ${x-1.55}; } kern;")], "r", None);
-    parse_files(&[("r", "feature liga { sub a by [b]é; } liga;")], "r", None);
-    parse_files(&[("r", "include(r);")], "r", None);
-    parse_files(&[("r", "include(b);"), ("b", "include(r);")], "r", None);
+    let args: Vec<String> = std::env::args().collect();
+    let args = &args[1..];
+    let seed = arg_val(args, "--seed", 1);
+    let n = arg_val(args, "--n", 600) as usize;
+    let n_parse = arg_val(args, "--parse", 4000) as usize;
+    let mut rng = Rng::new(seed);
+    install_hooks();
+    let corpus = load_corpus();
+    let mut id = 0usize;
+    let mut stats: BTreeMap<String, usize> = BTreeMap::new();
+
+    // ---- fixed regression inputs (always run first) -------------------------
+    let fixed: &[&str] = &[
+        "",
+        "\0",
+        "languagesystem DFLT dflt;\0feature liga { sub a by b; } liga;",
+        "feature liga { sub a by b }",
+        "include(a)",
+        "@a = [b]é;",
+        "feature liga { sub a--b by c; } liga;",
+        "feature liga { sub [a---b] by c; } liga;",
+        "feature kern { pos a ${x-12.5}; } kern;",
+        "feature kern { pos a ${x-1.}; } kern;",
+        "feature liga { sub a' from [b c]; sub a b' c' lookup L1 by d; } liga;",
+        "\"unterminated",
+        "0x",
+        "include(",
+        "include()",
+        "anon x { ",
+        "table",
+        "feature liga {",
+        "é",
+        "#",
+        "\\",
+    ];
+
+    // ---- stream P -----------------------------------------------------------
+    let mut pst = PStats { parses: 0, error_free: 0, validated: 0, with_diags: 0, by_kind: BTreeMap::new() };
+    for t in fixed {
+        check_text("fixed", t, &mut rng, &mut pst);
+    }
+    for (_, text) in &corpus {
+        check_text("corpus", text, &mut rng, &mut pst);
+    }
+    for i in 0..n_parse {
+        match i % 4 {
+            0 => {
+                let (_, base) = rng.pick(&corpus);
+                let w = window(&mut rng, base, 1500);
+                let m = mutate(&mut rng, &w, 4);
+                check_text("corpus-mutated", &m, &mut rng, &mut pst);
+            }
+            1 => {
+                let t = gen_fea(&mut rng);
+                check_text("grammar", &t, &mut rng, &mut pst);
+            }
+            2 => {
+                let t = gen_fea(&mut rng);
+                let m = mutate(&mut rng, &t, 3);
+                check_text("grammar-mutated", &m, &mut rng, &mut pst);
+            }
+            _ => {
+                let t = gen_soup(&mut rng);
+                check_text("soup", &t, &mut rng, &mut pst);
+            }
+        }
+    }
+
+    // ---- stream L -----------------------------------------------------------
+    for t in fixed {
+        lexer_case(&mut id, "lex-fixed", t);
+    }
+    for i in 0..n {
+        match i % 5 {
+            0 => {
+                let (_, base) = rng.pick(&corpus);
+                let w = window(&mut rng, base, 240);
+                lexer_case(&mut id, "lex-corpus", &w);
+            }
+            1 => {
+                let (_, base) = rng.pick(&corpus);
+                let w = window(&mut rng, base, 200);
+                let m = mutate(&mut rng, &w, 4);
+                lexer_case(&mut id, "lex-corpus-mutated", &m);
+            }
+            2 => {
+                let t = gen_fea(&mut rng);
+                let w = window(&mut rng, &t, 260);
+                lexer_case(&mut id, "lex-grammar", &w);
+            }
+            3 => {
+                let t = gen_soup(&mut rng);
+                let w = window(&mut rng, &t, 200);
+                lexer_case(&mut id, "lex-soup", &w);
+            }
+            _ => {
+                let t = gen_fea(&mut rng);
+                let w = window(&mut rng, &t, 200);
+                let m = mutate(&mut rng, &w, 3);
+                lexer_case(&mut id, "lex-grammar-mutated", &m);
+            }
+        }
+    }
+
+    // ---- stream D -----------------------------------------------------------
+    for i in 0..n {
+        let use_map = rng.chance(1, 2);
+        if i % 3 == 0 {
+            let (text, ops) = gen_rewrite_case(&mut rng);
+            drive_case(&mut id, "drive-rewrite", &text, &ops, use_map, &mut stats);
+            continue;
+        }
+        let text = match i % 4 {
+            0 => {
+                let t = gen_fea(&mut rng);
+                window(&mut rng, &t, 160)
+            }
+            1 => {
+                let t = gen_soup(&mut rng);
+                window(&mut rng, &t, 120)
+            }
+            2 => {
+                let t = gen_fea(&mut rng);
+                let w = window(&mut rng, &t, 140);
+                mutate(&mut rng, &w, 3)
+            }
+            _ => {
+                let (_, base) = rng.pick(&corpus);
+                window(&mut rng, base, 160)
+            }
+        };
+        let mut g = OpGen::new(&text);
+        let mut budget = rng.range(3, 40);
+        // a root node around everything most of the time
+        let rooted = rng.chance(3, 4);
+        if rooted {
+            g.ops.push((0, 120, 0, vec![]));
+        }
+        while budget > 0 && g.consumed <= g.toks.len() + 1 {
+            if rng.chance(1, 3) {
+                g.block(&mut rng, 0, &mut budget);
+            } else if rng.chance(1, 6) {
+                g.noise(&mut rng);
+            } else {
+                g.eat(&mut rng);
+            }
+            budget -= 1;
+        }
+        if rooted && rng.chance(9, 10) {
+            g.ops.push((3, 0, 0, vec![]));
+            g.ops.push((1, 0, 0, vec![]));
+        }
+        if rng.chance(1, 25) {
+            g.ops.push((1, 0, 0, vec![])); // one finish too many
+        }
+        let ops = g.ops.clone();
+        drive_case(&mut id, "drive", &text, &ops, use_map, &mut stats);
+    }
+
+    // ---- stream I -----------------------------------------------------------
+    for _ in 0..(n / 3).max(30) {
+        let (g, kind) = gen_graph(&mut rng);
+        include_case(&mut id, &g, kind, &mut stats);
+    }
+
+    emit_stat(json!({
+        "extra_evaluations": pst.parses,
+        "parse_checks": pst.parses,
+        "parse_checks_error_free_then_validated": pst.validated,
+        "parse_checks_with_diagnostics": pst.with_diags,
+        "parse_inputs_by_kind": pst.by_kind,
+        "corpus_files": corpus.len(),
+        "drive_and_include": stats,
+    }));
 }
